@@ -295,6 +295,22 @@ func c27ChannelsCodecs() []*kit.Codec {
 	}
 	out = append(out, c27Legacy(c27Codec("CommittedReadsResponse", kindCommittedReadsResponse, true, encReadResp, decodeCommittedReadsResponse, readResps), c27ResultV[CommittedReadsResponse](kindCommittedReadsResponse), readResps[2:]))
 
+	// section "sequences": the fallible entry points of codec.go - a request frame of an
+	// unsupported version (rejected after the payload was built), a result of an unsupported
+	// version, a result payload of an unsupported type (rejected after the status byte) - and
+	// error results (a different path through encodeRPCResultVersion)
+	out[len(out)-1].SeqCalls = []kit.SeqCall{
+		{Label: "encodePullRequestVersion(v2)", Call: func() ([]byte, error) { return encodePullRequestVersion(pullReqs[1].v, 2) }},
+		{Label: "encodeAppendBatchRequestVersion(v9)", Call: func() ([]byte, error) { return encodeAppendBatchRequestVersion(appendBatches[1].v, 9) }},
+		{Label: "encodeCommittedReadsRequestVersion(v0)", Call: func() ([]byte, error) { return encodeCommittedReadsRequestVersion(readReqs[2].v, 0) }},
+		{Label: "encodeRPCResultVersion(v4,PullResponse)", Call: func() ([]byte, error) {
+			return encodeRPCResultVersion(legacyCodecVersionV4, kindPullResponse, pullResps[1].v, nil)
+		}},
+		{Label: "encodeRPCResult(unsupported-payload-type)", Call: func() ([]byte, error) { return encodeRPCResult(kindAppendResponse, struct{ X int }{1}, nil) }},
+		{Label: "encodeRPCResult(error-result)", Call: func() ([]byte, error) { return encodeRPCResult(kindAppendBatchResponse, nil, errDetail) }},
+		{Label: "encodeRPCResult(unknown-error-result)", Call: func() ([]byte, error) { return encodeRPCResult(kindPullResponse, pullResps[1].v, errUnknown) }},
+	}
+
 	// empty RPC results (Ack / PullHint / Notify answer with a bare status)
 	for _, k := range []uint8{kindAck, kindPullHint, kindNotify} {
 		k := k
@@ -370,6 +386,9 @@ func c27ChannelsCodecs() []*kit.Codec {
 				return c27Tagged{Kind: b[1], V: v}, nil
 			},
 			Values: values,
+			// the same entry points are in the sequences section through their own codecs; these
+			// two carry the values of the open finding KF-C27-1 only
+			SeqSkip: "wrapper around codecs that are in the section themselves",
 		}
 	}
 	out = append(out, tagged("Message+SyncOnce", []kit.Value{
